@@ -207,6 +207,40 @@ func c18Run(input string) string {
 		res["out"] = "issue-error"
 		return emit()
 	}
+	// the holder's own check of what the issuer handed over: the genuine thing parses (one claim per disclosure), an
+	// altered issuer signature and a disclosure the SD-JWT does not commit to are refused
+	{
+		ivh, _ := afjwt.NewEd25519Verifier(c18IssuerPub)
+		hopts := []holder.ParseOpt{holder.WithSignatureVerifier(ivh)}
+		if c.V == 5 {
+			hopts = append(hopts, holder.WithSDJWTV5Validation(true), holder.WithIssuerSigningAlgorithms([]string{"EdDSA"}))
+		}
+		hp := func(in string) string {
+			cl, err := holder.Parse(in, hopts...)
+			if err != nil {
+				return "err"
+			}
+			return fmt.Sprint(len(cl))
+		}
+		ps := strings.SplitN(cfi, "~", 2)
+		sg := strings.Split(ps[0], ".")
+		badSig := cfi
+		if len(sg) == 3 && len(sg[2]) > 4 {
+			b := []byte(sg[2])
+			if b[2] == 'A' {
+				b[2] = 'B'
+			} else {
+				b[2] = 'A'
+			}
+			badSig = sg[0] + "." + sg[1] + "." + string(b)
+			if len(ps) == 2 {
+				badSig += "~" + ps[1]
+			}
+		}
+		fb, _ := json.Marshal([]interface{}{"saltY", "forged", "value"})
+		forged := strings.TrimSuffix(cfi, "~") + "~" + base64.RawURLEncoding.EncodeToString(fb)
+		res["hp"] = hp(cfi) + "/" + hp(badSig) + "/" + hp(forged)
+	}
 	// decode payload and disclosures
 	parts := strings.Split(cfi, "~")
 	segs := strings.Split(parts[0], ".")
